@@ -37,16 +37,16 @@ from ..realise import puritydocs as PD  # noqa: E402
 SPEC = os.path.join(SPECS, "purity", "MC_Purity.tla")
 TRACE_SPEC = os.path.join(SPECS, "purity", "PurityTrace.tla")
 ADDRESS_DEVS = ("InlineNameIsAddress", "TieBreakByAddress")
-DANGEROUS = ["EncodingNoCopy", "EncodingLazyCopy", "ColorSpaceNoCopy", "InitResourcesEarlyReturn", "ObjStmSiblingsCached", "UseCMapAlias", "UMapKeyCoarse", "SharedManager", "DecipherTwice",
+DANGEROUS = ["EncodingNoCopy", "EncodingLazyCopy", "ColorSpaceNoCopy", "InitResourcesEarlyReturn", "ObjStmSiblingsCached", "ContentsArrayConsumed", "UseCMapAlias", "UMapKeyCoarse", "SharedManager", "DecipherTwice",
              "DescendantNoCopy", "InlineNameIsAddress", "TieBreakByAddress"]
 # the smallest pool / number of calls in which each dangerous alternative breaks Functional
-REFUTE_IN = {"EncodingNoCopy": ('{"dA", "dB"}', 2), "EncodingLazyCopy": ('{"dA", "dB"}', 2), "InitResourcesEarlyReturn": ('{"dB"}', 1), "ObjStmSiblingsCached": ('{"dA"}', 1), "ColorSpaceNoCopy": ('{"dA", "dC"}', 2), "UseCMapAlias": ('{"dA"}', 2),
+REFUTE_IN = {"EncodingNoCopy": ('{"dA", "dB"}', 2), "EncodingLazyCopy": ('{"dA", "dB"}', 2), "InitResourcesEarlyReturn": ('{"dB"}', 1), "ObjStmSiblingsCached": ('{"dA"}', 1), "ContentsArrayConsumed": ('{"dC"}', 1), "ColorSpaceNoCopy": ('{"dA", "dC"}', 2), "UseCMapAlias": ('{"dA"}', 2),
              "UMapKeyCoarse": ('{"dA", "dB"}', 2), "SharedManager": ('{"dA", "dB"}', 2), "DecipherTwice": ('{"dC"}', 1),
              "DescendantNoCopy": ('{"dA"}', 1), "InlineNameIsAddress": ('{"dA"}', 1), "TieBreakByAddress": ('{"dB"}', 1)}
 ACTIONS = ["Open", "Extract", "Next", "Close", "UseCMap", "ADocOpen", "APageStart", "AInitResources", "AInitColorSpacesCopy", "AFontCacheHit",
            "AFontMiss", "AObjStmParse", "AObjDirectParse", "AGetFontSpec", "AGetObjParsed", "ADecipherAllInPlace", "ACopyDescendantSpec", "AGetEncodingShared",
            "AGetEncodingCopyOnWrite", "ADifferencesAssign", "ADifferencesPop", "AParseToUnicode", "ACMapCacheFill", "ACMapCacheHit", "AUMapCacheFill",
-           "AUMapCacheHit", "AResolveAllInPlace", "AFontCacheFill", "ARender", "AUseCMapCopy", "AAddCode2Cid"]
+           "AUMapCacheHit", "AResolveAllInPlace", "AFontCacheFill", "AExecuteContents", "ARender", "AUseCMapCopy", "AAddCode2Cid"]
 INVARIANTS = ["CacheKeySound", "CMapCacheSound", "DecipheredOnce", "ObjCacheNewest", "CachedObjectsAsParsed", "ClientOwnsItsTable"]
 PROPERTIES = ["SharedTablesImmutable", "CachesAppendOnly"]
 KINDS = OBS.KINDS
@@ -328,8 +328,14 @@ def replay_chunk(idxs):
     logging.disable(logging.CRITICAL)
     out = {"mismatch": [], "pages": 0, "calls": 0, "tables": [], "pid": os.getpid()}
     before = OBS.shared_tables()
+    watch = G.setdefault("watch", OBS.CacheWatch()).install()
+    watch.take()
     for si in idxs:
         replay_schedule(G["scheds"][si], G["docs"], G["fresh"], out, si, G["auto"])
+        for r in watch.take():
+            if r["oldafter"] != r["before"]:
+                note_mismatch(out, si, 0, "cached-object", "cached-object-mutated", "diff",
+                              "interpreting a page changed object(s) %s in the document's object cache" % ", ".join(r["changed"]))
         if out.get("ndiff", 0) > 2000:
             break
     after = OBS.shared_tables()
@@ -387,7 +393,16 @@ def model_drift(ck, scheds, single, tokens):
     drift = 0
     for (d, p), ev in sorted(exp.items()):
         items = json.loads(single[("pages", d, p - 1)][0])
-        glyphs = [it for it in items if it[0] == "c"]
+        # reading order by position (top to bottom, left to right), glyphs inside figures last
+        glyphs, depth = [], 0
+        for it in items:
+            if it[0] == "<" and it[1] == "LTFigure":
+                depth += 1
+            elif it[0] == ">" and depth:
+                depth -= 1          # (figures hold no containers in the pool documents)
+            elif it[0] == "c":
+                glyphs.append((depth, -round(it[4][3]), it[4][0], it))
+        glyphs = [g[3] for g in sorted(glyphs, key=lambda g: g[:3])]
         want_txt = [tokens.get(t, t) for t in ev["txt"]]
         got_txt = [g[1] for g in glyphs][:len(want_txt)]
         got_w = [abs(round(g[3] * 100)) for g in glyphs][:len(want_txt)]
@@ -445,6 +460,10 @@ def direction_a(ck, jobs, fp, docs, fresh, single, tokens):
                 for (si, pos, kind, key, cl, detail) in found:
                     ev = scheds[si][pos]
                     upto = chunk[max(0, chunk.index(si) - 40): chunk.index(si) + 1]
+                    if kind == "cached-object":
+                        ck.violation("cached-object-mutated", detail, {"kind": "schedules", "auto": auto,
+                                                                       "schedules": [scheds[i] for i in upto]})
+                        continue
                     report(ck, "history-dependent", kind, cl,
                            "%s of %s (caching=%s, pages=%s) in a process with a history differs from the same call in a fresh "
                            "process: %s" % (kind, ev.get("d"), ev.get("c"), ev.get("ps"), detail),
@@ -547,13 +566,15 @@ def record_history(args):
     tid, calls = args
     logging.disable(logging.CRITICAL)
     events = []
+    watch = OBS.CacheWatch().install()
     prev = OBS.shared_tables()
     for (label, kind, caching, pages) in calls:
         src = G["corpus"][label]["src"]
+        watch.take()
         res = OBS.run_call(kind, src, caching, pages, G["corpus"][label]["password"])
         cur = OBS.shared_tables()
         events.append({"doc": label, "fn": kind, "caching": caching, "pages": pages, "res": res,
-                       "tabs": OBS.table_delta(prev, cur)})
+                       "tabs": OBS.table_delta(prev, cur), "cobj": watch.take()})
         prev = cur
     return tid, events
 
@@ -572,6 +593,12 @@ def plan_history(rng, corpus, per_doc):
             else:
                 pages = sorted(rng.sample(U, rng.randrange(1, len(U) + 1)))
             calls.append((label, kind, caching, pages))
+    # the pool documents (shared indirect /Contents, /Resources, /Font, forms; object stream + update) always get a call
+    # with caching on over all pages and one with caching off
+    for label in corpus:
+        if label.startswith("generated:d"):
+            calls.append((label, rng.choice(KINDS), True, None))
+            calls.append((label, rng.choice(KINDS), False, None))
     rng.shuffle(calls)
     return calls
 
@@ -622,6 +649,12 @@ def explain_event(ck, tr, e, ev, dev, memo):
         elif x["oldafter"] != x["before"] or x["na"] < x["nb"]:
             said |= ck.violation("cache-entry-modified:" + x["name"], "an existing entry of %s was modified or removed during %s(%s): %s"
                                  % (x["name"], ev["fn"], ev["doc"], x["changed"]), rp) or True
+    for k, r in enumerate(ev.get("cobj", []), 1):
+        if r["oldafter"] != r["before"] or r["na"] < r["nb"]:
+            ck.violation("cached-object-mutated", "%s(%s, caching=%s): interpreting page #%d of the call changed object(s) %s that were "
+                         "in the document's object cache (PDFDocument._cached_objs) in place" % (ev["fn"], ev["doc"], ev["caching"], k,
+                                                                                                ", ".join(r["changed"])), rp)
+            said = True
     for u in ev["results"]:
         raw, fresh, pure = u["_s"]
         kind = ev["fn"]
@@ -707,7 +740,8 @@ def tlc_view(traces):
     return [{"label": tr["label"],
              "events": [{"doc": ev["doc"], "fn": ev["fn"], "caching": ev["caching"],
                          "results": [{k: u[k] for k in ("key", "raw", "fresh", "pure", "mraw", "mfresh", "mpure")} for u in ev["results"]],
-                         "tabs": [{k: x[k] for k in ("name", "cls", "nb", "na", "before", "after", "oldafter")} for x in ev["tabs"]]}
+                         "tabs": [{k: x[k] for k in ("name", "cls", "nb", "na", "before", "after", "oldafter")} for x in ev["tabs"]],
+                         "cobj": [{k: x[k] for k in ("nb", "na", "before", "oldafter")} for x in ev.get("cobj", [])]}
                         for ev in tr["events"]]} for tr in traces]
 
 
@@ -746,19 +780,25 @@ def validate_traces(ck, traces, dev):
     ck.extra["recorded_histories_rejected"] = rejected
     # vacuity of the trace spec: a corrupted field must be rejected at that event
     if traces and rejected == 0:
-        for field in ("raw", "oldafter"):
+        for field in ("raw", "oldafter", "cobj"):
             view = tlc_view(traces[:1])
             k = min(2, len(view[0]["events"]) - 1)
             if field == "raw":
                 u = view[0]["events"][k]["results"][0]
                 u["raw"] = u["mraw"] = "0000000000000000"
-            else:
+            elif field == "oldafter":
                 view[0]["events"][k]["tabs"][-2]["oldafter"] = "corrupted"
+            else:
+                withc = [i for i, ev in enumerate(view[0]["events"]) if ev["cobj"] and ev["cobj"][0]["nb"] > 0]
+                if not withc:
+                    raise MachineryError("no recorded call interpreted a page with a non-empty object cache: cached objects unwatched")
+                k = withc[0]
+                view[0]["events"][k]["cobj"][-1]["oldafter"] = "corrupted"
             res = run_trace_tlc(ck, view, dev, "corrupt")
             st = res.error_trace[-1][1] if res.error_trace else {}
             if res.ok or int(st.get("e", 0)) != k + 1:
                 raise MachineryError("PurityTrace.tla accepted a trace whose field %r was corrupted at event %d" % (field, k + 1))
-        ck.extra["corrupted_traces_rejected"] = 2
+        ck.extra["corrupted_traces_rejected"] = 3
 
 
 # ------------------------------------------------------------------------------------------------ run
